@@ -794,6 +794,40 @@ func ruleUnifiedHeaderSize(c *Ctx, r *Report) {
 // frames a wrapped length and reports success.
 var lenOfFieldRe = regexp.MustCompile(`len\(p0\.(\w+)\)\)*$`)
 
+// byteOfDecomposition: the conversion takes one byte out of a wider integer that the function
+// writes out byte by byte: byte(v >> 8k), or byte(v) next to such shifts of the same v.
+func byteOfDecomposition(in ssa.Instruction) bool {
+	cv, ok := in.(*ssa.Convert)
+	if !ok {
+		return false
+	}
+	if bits, _, okI := isIntLike(cv.Type()); !okI || bits != 8 {
+		return false
+	}
+	shiftOf := func(v ssa.Value) (ssa.Value, bool) {
+		sh, ok := v.(*ssa.BinOp)
+		if !ok || sh.Op != token.SHR {
+			return nil, false
+		}
+		k, isK := constInt(sh.Y)
+		return sh.X, isK && k > 0 && k%8 == 0
+	}
+	if _, ok := shiftOf(cv.X); ok {
+		return true
+	}
+	// the low byte: the same value is also shifted out in this function
+	for _, b := range in.Parent().Blocks {
+		for _, other := range b.Instrs {
+			if o, ok := other.(*ssa.Convert); ok && o != cv {
+				if src, ok := shiftOf(o.X); ok && src == cv.X {
+					return true
+				}
+			}
+		}
+	}
+	return false
+}
+
 // callersBoundLen: at every call site of fn (closed world) the first argument is a slice whose
 // length the caller has compared with a constant no larger than bound, the call being unreachable
 // when the length exceeds that constant. Returns what is missing, or "".
@@ -943,6 +977,10 @@ func ruleLengthNarrowing(c *Ctx, r *Report) {
 			// a length the function narrows without any check of its own: either the reviewed
 			// table says where the bound comes from (an earlier loop over the same elements, a
 			// helper, the caller, a deliberate truncation), or the encoder frames a wrapped length
+			if byteOfDecomposition(s.ins) {
+				r.OKTrivial(rule, key, c.ipos(s.ins), "one byte of a big-endian decomposition (value >> 8k), not a length")
+				continue
+			}
 			if why, ok := reviewedNarrow[key]; ok {
 				usedReviewed[key] = true
 				// "the caller bounds it": then every call site must be unreachable once the length
